@@ -48,11 +48,12 @@ class Cfg:
 PIN_EXT = int(os.environ.get("XH_EXT", "-1"))
 NAME_CHARS = os.environ.get("XH_NAME_CHARS", "aoz/.+")
 # how a link's page name relates to A (the renamed page): only REL 0 is a link to A
-RELS = ["A", "A+x", "x+A", "A/x", "x/A", "other", "B"]
+RELS = ["A", "A+x", "x+A", "A/x", "x/A", "other", "B", "A.pdf", "A:x", "A+", "A-x", "A x"]
 
 
 def rel_name(r, A, B):
-    return [A, A + "x", "x" + A, A + "/x", "x/" + A, "q", B][r]
+    # 7..11: targets that extend A by a non-word character (an attachment or template sharing the page's stem, ...)
+    return [A, A + "x", "x" + A, A + "/x", "x/" + A, "q", B, A + ".pdf", A + ":x", A + "+", A + "-x", A + " x"][r]
 
 
 def _ok_name(s):
